@@ -61,6 +61,7 @@ def run_split(ip, fname, args, max_leaves=2048):
     while work:
         asm = work.pop()
         ip.assume = asm
+        ip.splitting = True
         runs += 1
         try:
             r = ip.run(fname, args)
@@ -77,6 +78,7 @@ def run_split(ip, fname, args, max_leaves=2048):
             continue
         finally:
             ip.assume = {}
+            ip.splitting = False
         leaves.append((asm,) + tuple(r))
     return leaves
 
@@ -104,6 +106,8 @@ def band(a, b):
         return a if b[0] else ZERO
     if a is not TOP and a == b:
         return a
+    if a is not TOP and b is not TOP and a == bnot(b):
+        return ZERO
     return TOP
 
 
@@ -114,6 +118,26 @@ def bor(a, b):
         return ONE if b[0] else a
     if a is not TOP and a == b:
         return a
+    if a is not TOP and b is not TOP and a == bnot(b):
+        return ONE
+    return TOP
+
+
+def bmajority(x, y, c):
+    """carry of a full adder; TOP when it is not an affine function of the inputs"""
+    if x is TOP or y is TOP or c is TOP:
+        return TOP
+    if x == y or x == c:
+        return x
+    if y == c:
+        return y
+    for p, q, r in ((x, y, c), (y, x, c), (c, x, y)):
+        if is_const(p):
+            return bor(q, r) if p[0] else band(q, r)
+    # x ^ y constant 1: the carry is c; likewise for the other pairs
+    for p, q, r in ((x, y, c), (x, c, y), (y, c, x)):
+        if p == bnot(q):
+            return r
     return TOP
 
 
@@ -268,6 +292,7 @@ class Interp:
         self.max_depth = max_depth
         self.visited_functions = set()
         self.assume = {}
+        self.splitting = False       # set by run_split: non-affine decisions raise NeedSplit instead of going TOP
 
     # -- types ----------------------------------------------------------
     def tinfo(self, node):
@@ -606,7 +631,7 @@ class Frame:
             if op == '-':
                 c = v.const_value()
                 if c is None:
-                    raise Unsupported('negation of non-constant')
+                    return self.add(BV.const(0, v.width, v.signed), BV([bnot(y) for y in v.bits], v.signed), ONE, v.signed)
                 return BV.const(-c, v.width, v.signed)
             if op == '!':
                 nz = self.nonzero(v)
@@ -621,6 +646,8 @@ class Frame:
             if op == ',':
                 self.rvalue(n['inner'][0])
                 return self.rvalue(n['inner'][1])
+            if op in ('&&', '||'):
+                return self.logical(n)
             a = self.rvalue(n['inner'][0])
             b = self.rvalue(n['inner'][1])
             return self.binop(op, a, b, n)
@@ -659,9 +686,28 @@ class Frame:
             r = ZERO
         elif len(nonconst) == 1:
             r = nonconst[0]
+        elif self.ip.splitting and not any(b is TOP for b in nonconst):
+            raise NeedSplit(nonconst[0])
         else:
             r = TOP
         return BV([r] + [ZERO] * 31, True)
+
+    def add(self, a, b, cin, signed):
+        """ripple-carry sum of two equally wide vectors; a carry that is no affine function of the
+        input bits is decided by a case split (run_split) or is outside the domain"""
+        out = []
+        c = cin
+        for x, y in zip(a.bits, b.bits):
+            if x is TOP or y is TOP or c is TOP:
+                raise Unsupported('addition of unknown bits')
+            out.append(bxor(bxor(x, y), c))
+            nc = bmajority(x, y, c)
+            if nc is TOP:
+                if self.ip.splitting:
+                    raise NeedSplit([v for v in (c, x, y) if not is_const(v)][0])
+                raise Unsupported('operator + on non-constants')
+            c = nc
+        return BV(out, signed)
 
     def binop(self, op, a, b, n):
         if isinstance(a, Ptr) or isinstance(b, Ptr):
@@ -695,6 +741,8 @@ class Frame:
                     r = ONE
                 elif len(nc) == 1:
                     r = nc[0]
+                elif self.ip.splitting and not any(e is TOP for e in nc):
+                    raise NeedSplit(bnot(nc[0]))
                 else:
                     r = TOP
             if op == '!=':
@@ -733,6 +781,25 @@ class Frame:
                     r = gt if op in ('>', '>=') else bnot(gt)
                     return BV([r] + [ZERO] * 31, True)
             return BV.const(int(op in ('<=', '>=')), 32, True)
+        if op in ('+', '-') and a.width == b.width and not a.isfloat and not b.isfloat:
+            if op == '+':
+                return self.add(a, b, ZERO, a.signed and b.signed)
+            return self.add(a, BV([bnot(y) for y in b.bits], b.signed), ONE, a.signed and b.signed)
+        raise Unsupported('operator %s on non-constants' % op)
+
+    def logical(self, n):
+        """&& and || with C's short circuit: the right operand is evaluated only where the left one does not decide"""
+        op = n['opcode']
+        l = self.nonzero(self.rvalue(n['inner'][0])).bits[0]
+        if l is TOP:
+            raise Unsupported('%s on unknown bits' % op)
+        if is_const(l):
+            if (op == '&&') != bool(l[0]):
+                return BV([l] + [ZERO] * 31, True)
+            r = self.nonzero(self.rvalue(n['inner'][1])).bits[0]
+            return BV([r] + [ZERO] * 31, True)
+        if self.ip.splitting:
+            raise NeedSplit(l)
         raise Unsupported('operator %s on non-constants' % op)
 
     def call(self, n):
